@@ -548,6 +548,24 @@ func (x *Exec) appendBuiltin(f *Frame, st *State, info *CallInfo) Val {
 			return as
 		}
 	}
+	// a list of values outside the model (interface elements): only its length is kept
+	if as, ok := add.(*GoSlice); ok && rt == nil {
+		var ln *Term
+		switch b := base.(type) {
+		case *OpaqueVal:
+			ln = x.opaqueLen(st, b)
+		case *NilPtr:
+			ln = IntLit(0)
+		}
+		if ln != nil {
+			r := &OpaqueVal{Name: "list", Type: info.ResTyp}
+			if x.opaqueLens == nil {
+				x.opaqueLens = map[*OpaqueVal]*Term{}
+			}
+			x.opaqueLens[r] = Add(ln, IntLit(int64(len(as.Elems))))
+			return r
+		}
+	}
 	x.errorf("unsupported append (%T, %T) -> %s", base, add, info.ResTyp)
 	return &OpaqueVal{Name: "append"}
 }
@@ -600,6 +618,39 @@ func (x *Exec) applyContract(f *Frame, st *State, fn *ssa.Function, c *Contract,
 		if mr, ok := a.(*MapRef); ok {
 			if cur, ok := st.mem[mr.Obj].(*Term); ok {
 				st.mem[mr.Obj] = x.freshTerm("callmap", cur.Sort)
+			}
+		}
+	}
+	// a callee that stores into the elements of a slice parameter changes what every variable of the caller holding
+	// that slice sees (shared backing array): those variables keep their length, their elements are unknown afterwards
+	// (the callee's postconditions speak about its results, not about the caller's other names for the same array)
+	for i := range fn.Params {
+		at, ok := args[i].(*Term)
+		if !ok || !isSliceSort(at.Sort) || at.kind == tCon && len(at.Args) > 0 && at.Args[0].IsLit() && at.Args[0].Lit.Sign() == 0 {
+			continue
+		}
+		if !x.prog.writesSliceElems(fn, i) {
+			continue
+		}
+		var fresh *Term
+		get := func() *Term {
+			if fresh == nil {
+				fresh = x.freshTerm("shared_"+fn.Params[i].Name(), at.Sort)
+				st.assume(Eq(SelField(fresh, 0), SelField(at, 0)))
+				x.assumed["elements of a slice written by callee "+lastName(key)+" are unknown to the caller afterwards (shared backing array)"] = true
+			}
+			return fresh
+		}
+		// (the registers of the calling function; variables of outer functions this one is inlined into are reached
+		// through memory cells or not at all)
+		for r, v := range f.regs {
+			if vt, ok := v.(*Term); ok && vt == at {
+				f.regs[r] = get()
+			}
+		}
+		for o, v := range st.mem {
+			if vt, ok := v.(*Term); ok && vt == at {
+				st.mem[o] = get()
 			}
 		}
 	}
